@@ -180,10 +180,6 @@ def _get_process_streams_in_each_subzone(
         if not zone_path:
             continue
         streams_by_full_path[zone_path].append(stream)
-        path_components = zone_path.split("/")
-        for idx in range(1, len(path_components)):
-            relative_key = "/".join(path_components[idx:])
-            streams_by_relative_path[relative_key].append(stream)
         streams_by_relative_path[zone_path].append(stream)
 
     def _iter_zones(parent_zone: Zone):
